@@ -1048,6 +1048,10 @@ func (u *bgUnit) obSlice(z *zone, x *ast.SliceExpr) {
 		ob.ok, ob.why = true, "unreachable"
 		return
 	}
+	if why, ok := u.bufferTail(x); ok {
+		ob.ok, ob.why = true, why
+		return
+	}
 	ln, okL := u.lenOf(z, x.X)
 	if x.Low == nil && x.High != nil && !x.Slice3 {
 		if tv, ok := u.info.Types[x.High]; ok && tv.Value != nil && tv.Value.String() == "0" {
@@ -1095,6 +1099,127 @@ func (u *bgUnit) obSlice(z *zone, x *ast.SliceExpr) {
 		return
 	}
 	ob.why = strings.Join(problems, ", ") + " not entailed"
+}
+
+// bufferTail recognises x[len(x)-b.Len():] where b is a local defined once as bytes.NewBuffer(x) that is
+// only read afterwards (its uses are b.Len() and conversions to io.Reader) and x is assigned nowhere but
+// at its definition and in the statement that takes the tail. Library contract: a bytes.Buffer created over
+// x holds len(x) unread bytes, reading only decreases Len(), so 0 <= b.Len() <= len(x).
+func (u *bgUnit) bufferTail(x *ast.SliceExpr) (string, bool) {
+	if x.High != nil || x.Low == nil {
+		return "", false
+	}
+	xid, ok := ast.Unparen(x.X).(*ast.Ident)
+	if !ok {
+		return "", false
+	}
+	xo := u.info.ObjectOf(xid)
+	be, ok := ast.Unparen(x.Low).(*ast.BinaryExpr)
+	if !ok || be.Op != token.SUB {
+		return "", false
+	}
+	// len(x)
+	lc, ok := ast.Unparen(be.X).(*ast.CallExpr)
+	if !ok || len(lc.Args) != 1 {
+		return "", false
+	}
+	if fid, ok := ast.Unparen(lc.Fun).(*ast.Ident); !ok || fid.Name != "len" || u.info.Uses[fid] != types.Universe.Lookup("len") {
+		return "", false
+	}
+	if aid, ok := ast.Unparen(lc.Args[0]).(*ast.Ident); !ok || u.info.ObjectOf(aid) != xo {
+		return "", false
+	}
+	// b.Len()
+	bc, ok := ast.Unparen(be.Y).(*ast.CallExpr)
+	if !ok || len(bc.Args) != 0 {
+		return "", false
+	}
+	bse, ok := ast.Unparen(bc.Fun).(*ast.SelectorExpr)
+	if !ok || bse.Sel.Name != "Len" {
+		return "", false
+	}
+	bid, ok := ast.Unparen(bse.X).(*ast.Ident)
+	if !ok {
+		return "", false
+	}
+	bo := u.info.ObjectOf(bid)
+	if bo == nil || !isNamedType(bo.Type(), "bytes", "Buffer") {
+		return "", false
+	}
+	root := ast.Node(u.fn.Decl.Body)
+	// the statement that contains the tail expression
+	var host ast.Stmt
+	for p := u.c.Parent(x); p != nil; p = u.c.Parent(p) {
+		if st, ok := p.(ast.Stmt); ok {
+			host = st
+			break
+		}
+	}
+	defs, okUses, xAssignsElsewhere := 0, true, false
+	ast.Inspect(root, func(n ast.Node) bool {
+		switch s := n.(type) {
+		case *ast.AssignStmt:
+			for i, l := range s.Lhs {
+				id, ok := ast.Unparen(l).(*ast.Ident)
+				if !ok {
+					continue
+				}
+				switch u.info.ObjectOf(id) {
+				case bo:
+					defs++
+					good := false
+					if len(s.Lhs) == len(s.Rhs) {
+						if call, ok := ast.Unparen(s.Rhs[i]).(*ast.CallExpr); ok && len(call.Args) == 1 {
+							if f := callee(u.info, call); isFunc(f, "bytes", "NewBuffer") {
+								if aid, ok := ast.Unparen(call.Args[0]).(*ast.Ident); ok && u.info.ObjectOf(aid) == xo {
+									good = true
+								}
+							}
+						}
+					}
+					if !good {
+						okUses = false
+					}
+				case xo:
+					if s.Tok != token.DEFINE && ast.Stmt(s) != host {
+						xAssignsElsewhere = true
+					}
+				}
+			}
+		case *ast.UnaryExpr:
+			if s.Op == token.AND {
+				if id, ok := ast.Unparen(s.X).(*ast.Ident); ok && u.info.ObjectOf(id) == xo {
+					xAssignsElsewhere = true
+				}
+			}
+		case *ast.Ident:
+			if u.info.Uses[s] != bo {
+				return true
+			}
+			switch p := u.c.Parent(s).(type) {
+			case *ast.SelectorExpr:
+				if p.Sel.Name != "Len" {
+					okUses = false
+				}
+			case *ast.AssignStmt:
+				// b on the right-hand side: the target must be an io.Reader
+				for i, r := range p.Rhs {
+					if ast.Unparen(r) == ast.Expr(s) && i < len(p.Lhs) && len(p.Lhs) == len(p.Rhs) {
+						if !isNamedType(u.info.TypeOf(p.Lhs[i]), "io", "Reader") {
+							okUses = false
+						}
+					}
+				}
+			default:
+				okUses = false
+			}
+		}
+		return true
+	})
+	if defs != 1 || !okUses || xAssignsElsewhere {
+		return "", false
+	}
+	return "library contract: the bytes.Buffer was created over this slice and is only read, so 0 <= Len() <= len(slice)", true
 }
 
 // ---------------------------------------------------------------------------
@@ -1498,11 +1623,17 @@ func (u *bgUnit) postCall(z *zone, lhs []ast.Expr, rhs ast.Expr) {
 			}
 		}
 	case (pkg == "strings" || pkg == "bytes") && (f.Name() == "Index" || f.Name() == "IndexByte" || f.Name() == "IndexRune" || f.Name() == "LastIndex" || f.Name() == "LastIndexByte" || f.Name() == "IndexAny") && len(call.Args) == 2:
-		// -1 <= i <= len(s)-1
+		// -1 <= i <= len(s)-1; with a separator of constant length k (Index, LastIndex): i == -1 or
+		// i <= len(s)-k, and both give i - len(s) <= -k once len(s) >= k-1 is known
 		if i, ok := resVar(0); ok {
 			z.add(0, i, 1)
 			if ln, ok := u.lenOf(z, call.Args[0]); ok {
 				z.add(i, ln.v, ln.c-1)
+				if f.Name() == "Index" || f.Name() == "LastIndex" {
+					if k, ok := constLen(u.info, call.Args[1]); ok && k >= 1 && z.entails(0, ln.v, ln.c-(k-1)) {
+						z.add(i, ln.v, ln.c-k)
+					}
+				}
 			}
 		}
 	case pkg == "unicode/utf8" && (f.Name() == "DecodeRuneInString" || f.Name() == "DecodeRune" || f.Name() == "DecodeLastRuneInString") && len(call.Args) == 1 && len(lhs) == 2:
@@ -1526,6 +1657,22 @@ func (u *bgUnit) postCall(z *zone, lhs []ast.Expr, rhs ast.Expr) {
 		}
 	case pkg == "strings" && f.Name() == "TrimSpace":
 	}
+}
+
+// constLen: the length of a constant string or of []byte("constant").
+func constLen(info *types.Info, e ast.Expr) (int64, bool) {
+	e = ast.Unparen(e)
+	if v, ok := constString(info, e); ok {
+		return int64(len(v)), true
+	}
+	if call, ok := e.(*ast.CallExpr); ok && len(call.Args) == 1 {
+		if tv, ok := info.Types[call.Fun]; ok && tv.IsType() && isByteSlice(tv.Type) {
+			if v, ok := constString(info, call.Args[0]); ok {
+				return int64(len(v)), true
+			}
+		}
+	}
+	return 0, false
 }
 
 func isByteSlice(t types.Type) bool {
